@@ -457,3 +457,113 @@ Proof.
     destruct (run_op fixed fuel o h) as [u h'| |]; [left| |exact I]; unfold ill;
       rewrite (echeck_logged h _ o g Hg Htr), Hs; reflexivity.
 Qed.
+
+(* ---- the read-only walks of the dispatch functions ---- *)
+Lemma children_list_spec : forall fuel h k l, chain h k l ->
+  match children_list fuel k h with Ok r h' => h' = h /\ r = l | Fault _ _ => False | NoFuel => True end.
+Proof.
+  induction fuel as [|f IH]; intros h k l Hc; [exact I|]. cbn [children_list]. destruct Hc as [|a c l Hf Hc]; [cbn; auto|].
+  unfold bind at 1. rewrite (getw_run h a c Hf). unfold bind at 1. specialize (IH h (w_next c) l Hc).
+  destruct (children_list f (w_next c) h) as [r h'| |]; [|contradiction|exact I]. destruct IH as [-> ->]. cbn. auto.
+Qed.
+
+Lemma copy_children_spec : forall fuel h w c, hinv [] h -> findw h w = Some c ->
+  match copy_children fuel w h with
+  | Ok r h' => h' = h /\ (forall k, In k r <-> exists ck, findw h k = Some ck /\ w_parent ck = Some w)
+  | Fault _ _ => False
+  | NoFuel => True
+  end.
+Proof.
+  intros fuel h w c HI Hw. unfold copy_children. destruct (hi_kids [] h HI w c Hw) as (l & Hc & Hl).
+  unfold bind at 1. rewrite (getw_run h w c Hw). unfold bind at 1.
+  pose proof (children_list_spec fuel h _ l Hc) as H1.
+  destruct (children_list fuel (w_first c) h) as [r h'| |]; [|contradiction|exact I]. destruct H1 as [-> ->].
+  unfold bind at 1. rewrite (getw_run h w c Hw).
+  pose proof (children_list_spec fuel h _ l Hc) as H2.
+  destruct (children_list fuel (w_first c) h) as [r h'| |]; [|contradiction|exact I]. destruct H2 as [-> ->]. auto.
+Qed.
+
+Lemma is_child_from_spec : forall fuel h k l child, chain h k l ->
+  match is_child_from fuel k child h with
+  | Ok b h' => h' = h /\ (b = true <-> In child l)
+  | Fault _ _ => False
+  | NoFuel => True
+  end.
+Proof.
+  induction fuel as [|f IH]; intros h k l child Hc; [exact I|]. cbn [is_child_from].
+  destruct Hc as [|a c l Hf Hc]; [cbn; split; [reflexivity|split; [discriminate|intros []]]|].
+  destruct (Pos.eqb_spec a child) as [->|Hne]; [cbn; split; [reflexivity|split; [left; reflexivity|reflexivity]]|].
+  unfold bind at 1. rewrite (getw_run h a c Hf). specialize (IH h (w_next c) l child Hc).
+  destruct (is_child_from f (w_next c) child h) as [b h'| |]; [|contradiction|exact I].
+  destruct IH as [-> Hb]. split; [reflexivity|]. rewrite Hb. cbn. split; [auto|intros [E|H]; [congruence|exact H]].
+Qed.
+
+Lemma is_child_spec : forall fuel h w c child, hinv [] h -> findw h w = Some c ->
+  match is_child fuel w child h with
+  | Ok b h' => h' = h /\ (b = true -> exists ck, findw h child = Some ck /\ w_parent ck = Some w)
+  | Fault _ _ => False
+  | NoFuel => True
+  end.
+Proof.
+  intros fuel h w c child HI Hw. unfold is_child. destruct (hi_kids [] h HI w c Hw) as (l & Hc & Hl).
+  unfold bind at 1. rewrite (getw_run h w c Hw). pose proof (is_child_from_spec fuel h _ l child Hc) as H.
+  destruct (is_child_from fuel (w_first c) child h) as [b h'| |]; [|contradiction|exact I].
+  destruct H as [-> Hb]. split; [reflexivity|]. intro E. apply Hl. apply Hb. exact E.
+Qed.
+
+(* ---- outcomes: completed within the discipline, or the trace is no longer a client's ---- *)
+Definition dok (F : list nat) {A} (r : res A) : Prop :=
+  match r with
+  | NoFuel => True
+  | Fault _ hf => ill hf
+  | Ok _ h' => ill h' \/ good F h'
+  end.
+
+Lemma dok_ill : forall F A (m : M A) h, text m -> ill h -> dok F (m h).
+Proof.
+  intros F A m h T Hi. specialize (T h). unfold dok. destruct (m h) as [a h'|f hf|]; auto.
+  - destruct T as [l E]. left. eapply ill_ext; eauto.
+  - destruct T as [l E]. eapply ill_ext; eauto.
+Qed.
+
+Lemma dok_bind : forall F1 F2 A B (m : M A) (k : A -> M B) h,
+  dok F1 (m h) -> (forall a, text (k a)) -> (forall a h1, m h = Ok a h1 -> good F1 h1 -> dok F2 (k a h1)) ->
+  dok F2 (bind m k h).
+Proof.
+  intros F1 F2 A B m k h Hm Tk Hk. unfold bind. destruct (m h) as [a h1|f hf|] eqn:E; cbn in Hm; auto.
+  destruct Hm as [Hi|Hg]; [apply dok_ill; auto|]. apply (Hk a h1 eq_refl Hg).
+Qed.
+
+Lemma dok_ret : forall F A (a : A) h, good F h -> dok F (ret a h).
+Proof. intros. cbn. right. assumption. Qed.
+
+(* the inline form of a frame reference *)
+Lemma frame_ref_inline : forall f A w (rest : M A) h,
+  (log_op (OFrameRef w) ;;; window_ref w ;;; rest) h =
+  match frame_run f (OFrameRef w) h with Ok _ h' => rest h' | Fault x hf => Fault x hf | NoFuel => NoFuel end.
+Proof. intros. cbn [frame_run]. unfold bind, log_op. destruct (window_ref w _); reflexivity. Qed.
+Lemma frame_unref_inline : forall f A w (rest : M A) h,
+  (log_op (OFrameUnref w) ;;; unref fixed f w ;;; rest) h =
+  match frame_run f (OFrameUnref w) h with Ok _ h' => rest h' | Fault x hf => Fault x hf | NoFuel => NoFuel end.
+Proof. intros. cbn [frame_run]. unfold bind, log_op. destruct (unref fixed f w _); reflexivity. Qed.
+
+Lemma dok_pop_ret : forall f F A w (a : A) h, good (idx w :: F) h ->
+  dok F ((log_op (OFrameUnref w) ;;; unref fixed f w ;;; ret a) h).
+Proof.
+  intros f F A w a h G. rewrite (frame_unref_inline f). pose proof (good_pop f F h w G) as H.
+  destruct (frame_run f (OFrameUnref w) h) as [u h'| |]; [|contradiction|exact I]. cbn. right. exact H.
+Qed.
+
+(* a change of the root-only fields other than the queue and the drag source *)
+Lemma good_rx : forall F h r, good F h -> r_queue r = r_queue (rx h) -> r_drag r = r_drag (rx h) -> good F (with_rx h r).
+Proof.
+  intros F h r (g & Hg & HI & AG & Hfr & HF) Hq Hd. exists g. split; [exact Hg|].
+  split; [eapply hinv_rx_only; [exact HI|apply rx_only_with_rx; assumption]|]. split; [|split; assumption].
+  destruct AG as [L C]. constructor; [exact L|]. intros i gw Hn. exact (C i gw Hn).
+Qed.
+Lemma good_uninit : forall F h, good F h ->
+  good F (mkHeap (wins h) (reqs h) (rx h) (nextw h) (nextq h) (dlog h) true (tr h)).
+Proof.
+  intros F h (g & Hg & HI & AG & Hfr & HF). exists g. split; [exact Hg|]. split; [eapply hinv_same; eauto|].
+  split; [|split; assumption]. destruct AG as [L C]. constructor; [exact L|exact C].
+Qed.
